@@ -32,6 +32,7 @@ int64_t vf_param(const char * n) { return (int64_t)std::strtoll(lookup(n).c_str(
 double vf_paramf(const char * n) { return std::strtod(lookup(n).c_str(), nullptr); }
 double vf_angle(const char * n, double, double) { return vf_f64(n); }
 double vf_pi() { return M_PI; }
+int64_t vf_enum(int64_t v) { return v; }
 void vf_assume(bool c)
 {
   if (!c) {
